@@ -228,6 +228,23 @@ func (t *TNC) Stop() {
 	t.mu.Unlock()
 }
 
+// Release drops everything the model recorded (after the oracles are done):
+// goroutines left blocked on the links keep the model itself reachable.
+func (t *TNC) Release() {
+	t.mu.Lock()
+	defer t.mu.Unlock()
+	t.stopped = true
+	t.Emissions, t.Frames, t.Errors, t.Conns, t.Cmds, t.BufLog, t.CrcFaults, t.Accepted = nil, nil, nil, nil, nil, nil, nil, nil
+	t.lastFault, t.cur, t.pendingBad = map[string]*CrcFaultRec{}, nil, nil
+	t.plan = Plan{}
+	for _, os := range t.streams {
+		os.queue, os.inflight, os.flushed = nil, nil, nil
+	}
+	for _, fr := range t.framers {
+		fr.raw, fr.body = nil, nil
+	}
+}
+
 // CloseStream closes the model's end of a stream ("serial", "ctrl", "data").
 func (t *TNC) CloseStream(stream string) {
 	t.mu.Lock()
